@@ -24,6 +24,8 @@ use serde_json::{json, Value};
 
 pub struct Case {
     pub lib: Library,
+    /// the same program with every '$' escape of a string decoded (the other faithful reading)
+    pub lib_decoded: Library,
     pub lexemes: Vec<Lexeme>,
     pub text: String,
     pub productions: usize,
@@ -34,13 +36,18 @@ pub fn build(tape: &[u8], gates: &Gates, opts: &SpellOpts, max_elements: usize) 
     let mut g = Gen::new(gates, Tape::new(tape));
     let lib = g.library(max_elements);
     let rest = g.t.rest();
+    let lib_decoded = {
+        let mut g2 = Gen::new(gates, Tape::new(tape));
+        g2.decode_escapes = true;
+        g2.library(max_elements)
+    };
     let mut p = Printer::new(gates, rest);
     p.library(&lib);
     let mut lt = p.t.rest();
     let lexemes = p.finish();
     let (lay, _) = layout(&lexemes, opts, &mut lt);
     let productions = gates.take_hits_peek();
-    Case { lib, lexemes, text: lay.text, productions }
+    Case { lib, lib_decoded, lexemes, text: lay.text, productions }
 }
 
 pub fn compare(expected: &Library, text: &str) -> Result<(), (String, String)> {
@@ -112,6 +119,9 @@ fn check_tape(tape: &[u8], gates: &Gates, stats: &mut Stats, counting: bool) -> 
     }
     match compare(&case.lib, &case.text) {
         Ok(()) => Ok(()),
+        // strings with '$' escapes: the library may keep the text between the quotes or the
+        // characters it denotes (all strings alike) - nothing else may differ
+        Err(_) if case.lib_decoded != case.lib && compare(&case.lib_decoded, &case.text).is_ok() => Ok(()),
         Err((kind, detail)) => Err(Failure::new("random-program", &kind, detail, json!({"text": case.text}))),
     }
 }
@@ -490,9 +500,6 @@ pub fn run(ctx: &Ctx) -> i32 {
         "tape -> dsl library in the image of a faithful parser (gen_syntax) -> harness printer (alternative productions from the tape, mild layout) -> parse_program must return the same library (derived ==, plus case-sensitive identifier spellings in visit order). Exhaustive grids: all 225 ordered binary operator pairs x both association shapes, all unary/binary mixes, 225 operator triples x 3 shapes; every POU kind x VAR block class x qualifier x initialiser kind the grammar admits (alone and followed by a neighbour block). Text-first census (for what the AST cannot hold): 3 POU kinds x 14 block headers x 24 declaration forms written as text (exhaustive grid + random multi-POU units); when the combination is derivable from IEC B.1.4.3/B.1.5 and the parser accepts it, every user identifier written must be the span of an Id of the library (nothing dropped). Non-trivial: >= 1 declaration and >= 3 distinct grammar productions exercised; distinct by hash of the program text.",
     );
     let mut gates = ctx.gates_for("C01");
-    // '$' escapes: the dsl keeps them verbatim today, decoding them would be equally faithful;
-    // C09 (either reading) and C10 / C08 / C05 (representation independent) cover them
-    gates.set_off("STRING_DOLLAR_ESCAPES_IN_PROGRAMS");
     run_grid(&mut rep, &gates);
     run_decl_grid(&mut rep, &gates);
     run_text_grid(&mut rep, &gates, ctx);
@@ -544,8 +551,7 @@ pub fn witness(w: &Value) -> Result<(), String> {
 }
 
 pub fn replay(ctx: &Ctx, v: &Value) -> i32 {
-    let mut gates = ctx.gates_for("C01");
-    gates.set_off("STRING_DOLLAR_ESCAPES_IN_PROGRAMS");
+    let gates = ctx.gates_for("C01");
     let r = match v["check"].as_str().unwrap_or("") {
         "random-program" => {
             let tape: Vec<u8> = v["tape"].as_array().map(|a| a.iter().map(|x| x.as_u64().unwrap_or(0) as u8).collect()).unwrap_or_default();
